@@ -1,4 +1,5 @@
 """F-C07-1 / F-C07-2 (run with /venv/bin/python; not a check)"""
+import sys, os; sys.path.insert(0, os.getcwd())
 import numpy as np
 from compmech.panel import Panel
 from compmech.stiffpanelbay import StiffPanelBay
